@@ -304,6 +304,79 @@ def run(tier, seed, replay=None):
             flush()
     total += nvg
     rep.cov["memcheck_calls"] = nvg
+
+    # ---- (5) the optional syslog output (--enable-output-syslog): glibc's syslog(3) keeps per-process state (ident POINTER, options,
+    # facility). The recorder stands in for openlog/syslog/closelog and keeps that state; when the real exec is entered and when the
+    # call returns, the caller's syslog state must be what it was before (closed, no ident pointer into a dead frame of the wrapper).
+    bs = c.build("asan", tag="C02sl", extra_conf=["--enable-output-syslog"])
+    long_id = b"I" * 300
+    slcases = [
+        ("d", b"", None, None, None),
+        ("f1", b"syslog_facility = LOCAL3\nsyslog_level = DEBUG\n", 19 << 3, 7, None),
+        ("f2", b"syslog_facility = daemon\nsyslog_level = LOG_ERR\nsyslog_ident = myident\n", 3 << 3, 3, b"myident"),
+        ("f3", b'syslog_ident = "%{snoopy_literal:' + long_id + b'}"\nsyslog_level = warning\n', None, 4, long_id[:255]),
+        ("f4", b'syslog_ident = ""\nsyslog_facility = KERN\nsyslog_level = EMERG\n', 0, 0, b""),
+        ("f5", b"syslog_ident = %{nosuchsource}\n", None, None, None),
+        ("flt", b"filter_chain = exclude_uid:0\n", None, None, None),
+        ("big", b"datasource_message_max_length = 4000\nlog_message_max_length = 4000\n", None, None, None),
+    ]
+    s = drv.Script()
+    s.envp([b"A=1"]).add("snap", 0).add("quiet", 2).path(b"/nonexistent/prog")
+    for name, extra, fac, lvl, ident in slcases:
+        msgfmt = b'"%{snoopy_literal:' + (b"M" * 900 if name == "big" else b"hello " + name.encode()) + b'}' + (b'%{snoopy_literal:' + b"N" * 900 + b'}' if name == "big" else b"") + b'"'
+        ini = b"[snoopy]\noutput = syslog\nmessage_format = " + msgfmt + b"\n" + extra
+        s.add("emit", "item:" + name).add("fork").add("ini", drv.hx(ini))
+        s.add("ret", -1, 2).argv([b"prog", b"a"]).call("execve", name + ".1")
+        s.add("ret", -1, 13).call("execv", name + ".2")
+        s.add("ret", 0, 0).argv(None).call("execve", name + ".3")
+        s.add("endfork")
+    r = drv.run_script(bs, s, os.path.join(bs["root"], "sl"), tag="sl", timeout=300, env_extra={"REC_SYSLOG": "1"})
+    cur, seen = None, {}
+    for e in r["events"]:
+        if e["ev"] == "mark" and e["label"].startswith("item:"):
+            cur = e["label"][5:]
+            seen[cur] = dict(rets=[], signal=0)
+        elif cur and e["ev"] == "ret":
+            seen[cur]["rets"].append(e)
+        elif cur and e["ev"] == "child":
+            seen[cur]["signal"] = e.get("signal") or 0
+    for name, extra, fac, lvl, ident in slcases:
+        total += 3
+        nontriv += 3
+        o = seen.get(name)
+        bad = []
+        if o is None:
+            bad.append("no observation (driver died?)")
+        elif o["signal"]:
+            bad.append("the calling process died with signal %d" % o["signal"])
+        elif len(o["rets"]) != 3:
+            bad.append("%d of 3 calls returned" % len(o["rets"]))
+        else:
+            for e in o["rets"]:
+                sl = e.get("syslog") or {}
+                want = 0 if name == "flt" else 1
+                if e["n_real"] != 1:
+                    bad.append("%s: real exec entered %d times" % (e["label"], e["n_real"]))
+                if sl.get("open_at_exec") != 0 or sl.get("open_after") != 0:
+                    bad.append("%s: the caller's syslog state is left open (ident pointer into the wrapper's dead frame) at the real exec / after return: %s/%s" % (e["label"], sl.get("open_at_exec"), sl.get("open_after")))
+                if sl.get("msgs") != want or sl.get("opens") != sl.get("closes") or sl.get("opens", 0) > 1:
+                    bad.append("%s: %s syslog messages, %s openlog, %s closelog (wanted %d message inside one openlog/closelog pair)" % (e["label"], sl.get("msgs"), sl.get("opens"), sl.get("closes"), want))
+                if want and lvl is not None and (sl.get("pri") & 7) != lvl:
+                    bad.append("%s: level %s instead of %d" % (e["label"], sl.get("pri"), lvl))
+                if want and fac is not None and sl.get("fac") != fac:
+                    bad.append("%s: facility %s instead of %d" % (e["label"], sl.get("fac"), fac))
+                if want and ident is not None and bytes.fromhex(sl.get("ident", "")) != ident:
+                    bad.append("%s: ident %r.. (%d bytes) instead of %r.. (%d bytes)" % (e["label"], bytes.fromhex(sl.get("ident", ""))[:20], len(sl.get("ident", "")) // 2, ident[:20], len(ident)))
+                if want and name != "big" and bytes.fromhex(sl.get("last", "")) != b"hello " + name.encode():
+                    bad.append("%s: message %r" % (e["label"], bytes.fromhex(sl.get("last", ""))[:40]))
+        if bad:
+            rep.violation("syslogoutput:%s" % name, "output = syslog (build with --enable-output-syslog), configuration %r: %s" % (extra[:60], "; ".join(bad[:4])), dict(config=repr(extra[:200]), problems=bad[:10]))
+    for f in sorted(os.listdir(os.path.join(bs["root"], "sl"))):
+        if ".asan" in f or ".ubsan" in f:
+            txt = open(os.path.join(bs["root"], "sl", f), errors="replace").read()
+            m = re.search(r"(ERROR: AddressSanitizer: [^\n]*|runtime error: [^\n]*)", txt)
+            rep.violation("sanitizer:syslogoutput", "sanitizer report with output = syslog: %s" % (m.group(1) if m else txt[:150]), dict(report=txt[:1500]))
+    rep.cov["syslog_output_calls"] = 3 * len(slcases)
     rep.cov["evaluations"] = total
     rep.cov["traces_validated_against_impl"] = total
     rep.cov["distinct_nontrivial"] = nontriv
@@ -311,7 +384,7 @@ def run(tier, seed, replay=None):
     rep.cov["data_sources_probed"] = len(names)
     rep.cov["rule"] = ("evaluation = one execution of the ASan+UBSan build: a hostile snoopy.ini (<= 2 lines exhaustively, 3 sampled, over %d line tokens) x call shape; a "
                        "model-generated format/limit case; a boundary argument vector; or one registry call of a data source / filter with an exactly-sized heap buffer "
-                       "(sizes 257..1 MiB+1, 8 argument classes, 11 process states incl. environ==NULL and 253..255-byte login names; the same calls on the production build under valgrind memcheck); non-trivial = everything except single-line files" % len(toks))
+                       "(sizes 257..1 MiB+1, 8 argument classes, 11 process states incl. environ==NULL and 253..255-byte login names; the same calls on the production build under valgrind memcheck); or a call with output = syslog on a --enable-output-syslog build with the recorder keeping the syslog(3) state; non-trivial = everything except single-line files" % len(toks))
     rep.sample(dict(hostile_file=[repr(toks[t - 1][:60]) for t in hs[len(hs) // 2]["file"]], shape=hs[len(hs) // 2]["shape"]))
     rep.sample(dict(buffer_case=bc[0]))
     rep.assumptions += ["memory safety is observed by AddressSanitizer/UBSan on executions chosen by the models; it is not proved (a TLA+ model does not decide UB of C)",
